@@ -632,6 +632,18 @@ def rule_collect_gate(ctx, R_collect, R_use):
         ctx.check(ok, R_collect, ob, 'optimize:collect-thresholds', '',
                   'optimize() does not evaluate the collect decision with visual_minimal_quality_collect / '
                   'visual_minimal_own_area_percentage_collect')
+        if len(cs) == 1:
+            # the values judged are the DETECTION's own: its box, its quality, its own-area share - never the
+            # filter-smoothed (predicted) box of the track
+            box, qual, share = eb.arg(cs[0], 1), eb.arg(cs[0], 2), eb.arg(cs[0], 4)
+            n += 1
+            from_obs = all(x.has_call('pop') or x.has_call('last') or x.has_call('last_mut') for x in (box, qual, share))
+            smoothed = [nm for x in (box, qual, share) for nm in ('make_prediction', 'predict', 'update')
+                        if x.has_call(nm)]
+            ctx.check(from_obs and not smoothed, R_collect, ob, 'optimize:collect-decision-on-the-detection-itself',
+                      'box / quality / share of the newest observation',
+                      'the collect decision is taken on %r / %r / %r: expected the box, quality and own-area share of '
+                      'the newest observation itself (not a predicted / smoothed box)' % (box, qual, share), cs[0].ln)
         # the feature is cleared exactly when is_merge && !usable
         cleared = False
         for i in sorted(ob.live_blocks()):
